@@ -8,6 +8,7 @@ INFO = dict(
         'calloc(): thread records come from typed static storage of exactly header + K slots, zeroed (CBMC\'s untyped byte-array '
         'calloc makes every pointer read from a record point anywhere and the formula explodes); size is asserted',
         'malloc()/free(): CBMC models (exact object sizes, cbmc 6 default pointer/bounds checks active inside the real code)',
+        'atomic_compare_exchange_weak_explicit on the list head -> verif_publish_cas (macro redirect): same compare-exchange, asserts the exact retire_threshold of the record being published, may fail once spuriously in h_publish',
         'gc callback: records which node it was handed and whether gc_data matches',
         'hp_free_e1.c only: hazard_pointer_scan replaced by a spy recording its argument and the record state at the call'],
  assumptions=['all sorted/searched addresses lie in one array object (CBMC orders pointers of different objects by offset only): '
@@ -50,6 +51,7 @@ def plan(tier, ctx):
     # 2. thresholds after N sequential registrations
     for n, k in cfgs:
         jobs += hp('e1.threshold_N%dK%d' % (n, k), 'h_threshold', n, k, timeout=60)
+        jobs += hp('e1.publish_N%dK%d' % (n, k), 'h_publish', n, k, timeout=120, note='(registration: exact threshold at the publication CAS, one spurious weak-CAS failure)')
     # 1. scan
     if not thorough:
         for n, k in cfgs:
